@@ -47,6 +47,10 @@ P_SRC = clause(UP_, 'post:sources_swapped', ['C08', 'C12'], 'B')
 C_ACC = clause(UC_, 'post:accepts_iff_advertised', ['C12'], 'B')
 C_DELIV = clause(UC_, 'post:delivery', ['C12'], 'B')
 C_TE = clause(UC_, 'raises:only_TypeError', ['C12'], 'B')
+UST = 'modifiers._PokTranslator.__init__'
+S_RAISE = clause(UST, 'raises:ValueError_iff_inadmissible_in_total', ['C12'], 'B',
+                 'decorating a function, then decorating the RESULT again: each step raises ValueError exactly when the selection accumulated so far '
+                 '(this decorator and the ones below) is inadmissible for the innermost function; otherwise the translator advertises the rewrite for the union')
 UAN = 'modifiers.annotate.__call__'
 A_RAISE = clause(UAN, 'raises:ValueError_iff_unknown_parameter', ['C12', 'C11'], 'B')
 A_VERB = clause(UAN, 'post:annotations_verbatim', ['C11'], 'B', 'the given values are stored as the annotations and reported verbatim by source_value()')
@@ -150,6 +154,30 @@ def make_runner(mode, shape, npos=0, nkwo=0, nargs=0, nkeys=0, want=None):
                 r.outcome = 'return'
             except PyExc as e:
                 r.outcome, r.exc = 'raise', e
+        elif mode == 'stack':
+            # two decoration steps through the REAL constructor (__new__, __init__, update_wrapper, _merge_other, _prepare)
+            names = {}
+            for step in (1, 2):
+                for kind_, cnt in (('poso', npos if step == 1 else nkwo), ('kwo', nkwo if step == 1 else npos)):
+                    names[(step, kind_)] = [SymName(z3.Const('%s%d_step%d' % (kind_, i, step), NameS)) for i in range(cnt)]
+                    if len(names[(step, kind_)]) > 1:
+                        ctx.add(z3.Distinct(*[x.t for x in names[(step, kind_)]]))
+            env['names'] = names
+            env['steps'] = []
+            cur = func
+            for step in (1, 2):
+                try:
+                    cur = I.instantiate(PT, [cur], [('posoargs', tuple(names[(step, 'poso')])), ('kwoargs', tuple(names[(step, 'kwo')]))])
+                    env['steps'].append(('return', cur))
+                except PyExc as e:
+                    env['steps'].append(('raise', e))
+                    break
+            last = env['steps'][-1]
+            r.outcome = last[0]
+            if last[0] == 'raise':
+                r.exc = last[1]
+            else:
+                r.value = last[1]
         elif mode == 'desc_get':
             mu = I.module('sigtools._util')
             ODD = mu.ns['OverrideableDataDesc']
@@ -397,6 +425,32 @@ def vcs(env, want):
             goals.append(z3.BoolVal(len(sur1) == len(sur2) and all(x is y for x, y in zip(sur1, sur2))))
             out.append(VC(C_DELIV.full, [z3.Not(excl), acc_adv], z3.And(*goals) if goals else z3.BoolVal(True), C_DELIV.props))
         return out
+    if mode == 'stack':
+        if not on(S_RAISE):
+            return out
+        names = env['names']
+        acc_p, acc_k = [], []
+        for step, oc in enumerate(env['steps'], 1):
+            acc_p = acc_p + names[(step, 'poso')]
+            acc_k = acc_k + names[(step, 'kwo')]
+            adm = admissible_term(info, acc_p, acc_k)
+            empty = not (names[(step, 'poso')] or names[(step, 'kwo')])
+            if oc[0] == 'raise':
+                out.append(VC(S_RAISE.full + ':step%d:raise_implies_inadmissible' % step, [], z3.And(z3.BoolVal(oc[1].typ is ValueError), z3.Not(adm)), S_RAISE.props))
+            else:
+                out.append(VC(S_RAISE.full + ':step%d:return_implies_admissible' % step, [], adm, S_RAISE.props))
+                t = oc[1]
+                if isinstance(t, Inst) and '__signature__' in t._d and (acc_p or acc_k) and not empty:
+                    rps = t._d['__signature__']._d['_parameters'].plist
+                    goals = []
+                    for p in rps:
+                        o = _origin(p)
+                        nm = name_term(o)
+                        goals.append(z3.BoolVal(p.kind == PO) == z3.Or(z3.BoolVal(o.kind == PO), z3.And(z3.BoolVal(o.kind == POK), _in(acc_p, nm))))
+                        goals.append(z3.BoolVal(p.kind == KWO) == z3.Or(z3.BoolVal(o.kind == KWO), z3.And(z3.BoolVal(o.kind == POK), _in(acc_k, nm))))
+                    goals.append(z3.BoolVal(t._d.get('func') is env['func']))
+                    out.append(VC(S_RAISE.full + ':step%d:advertises_the_union' % step, [], z3.And(*goals), S_RAISE.props))
+        return out
     if mode == 'desc_get':
         if not on(D_BIND):
             return out
@@ -641,7 +695,11 @@ def crosscheck(env, r):
     kwo = [conc.name(n) for n in env['kwo']]
     twin = make_function(specs, 'wrapped', body='return locals()')
     try:
-        deco = modifiers._PokTranslator(twin, posoargs=poso, kwoargs=kwo)
+        # exactly what the symbolic side does: the unit under contract is _prepare on a translator whose name sets are given
+        deco = object.__new__(modifiers._PokTranslator)
+        deco.func = twin
+        deco.posoarg_names, deco.kwoarg_names = set(poso), set(kwo)
+        deco._prepare()
         nat = ('return', deco)
     except Exception as e:
         nat = ('raise', type(e).__name__)
@@ -654,7 +712,7 @@ def crosscheck(env, r):
     mine = [(conc.name(p._d['_name']), p._d['_kind']) for p in adv._d['_parameters'].plist]
     if not (poso or kwo):
         return None
-    theirs = [(p.name, int(p.kind)) for p in specifiers.signature(nat[1]).parameters.values()]
+    theirs = [(p.name, int(p.kind)) for p in nat[1].__signature__.parameters.values()]
     if mine != theirs:
         return '_prepare: advertised %r, native %r' % (mine, theirs)
     if mode == 'call':
